@@ -141,6 +141,7 @@ pub fn eval(case: &str) -> Out {
     match w[1] {
         "tp" | "tr" if w.len() == 4 => eval_text(w[1], w[2], w[3]),
         "sd" if w.len() == 6 => eval_serde(w[2], w[5]),
+        "lj" if w.len() == 4 => eval_locktime_json(w[2], w[3]),
         _ => Out::ok("harnesserr kind".into()),
     }
 }
@@ -222,6 +223,20 @@ fn eval_serde(ty: &str, arg: &str) -> Out {
         _ => Out::ok("harnesserr type".into()),
     }
 }
+/// `C20 lj <Variant> <n>`: a LockTime obtained from the JSON {"<Variant>": n} (the derived Deserialize), then Display -> FromStr
+fn eval_locktime_json(variant: &str, n: &str) -> Out {
+    let show = |v: &LockTime| match v { LockTime::Blocks(h) => format!("B{}", h.to_consensus_u32()), LockTime::Seconds(t) => format!("S{}", t.to_consensus_u32()) };
+    match serde_json::from_str::<LockTime>(&format!("{{\"{}\":{}}}", variant, n)) {
+        Err(_) => Out::ok("err".into()),
+        Ok(l) => {
+            let s = l.to_string();
+            let (line, back) = parse_line::<LockTime>(&s, &show, &|e| chain_class(e).unwrap_or_else(|| "int-other".into()));
+            let pred_fail = match back { Some(b) if b == l => None,
+                _ => Some(format!("F17-locktime-deserialize-unvalidated|{} obtained through Deserialize prints as {:?}, which parses to a different value", show(&l), s)) };
+            Out { result: format!("ok {} {} {}", show(&l), hex(s.as_bytes()), line), pred_fail }
+        }
+    }
+}
 fn sd(ty: &str, cons: Option<&[u8]>, arg: String, mut tags: Vec<String>, nontrivial: bool, out: &mut Vec<Case>) {
     let pts = match cons { Some(b) => valid_points(b), None => vec![] };
     tags.push(format!("serde:{}", ty.split(':').next().unwrap()));
@@ -296,6 +311,11 @@ fn gen_serde(rng: &mut ChaCha20Rng, n: usize, thorough: bool, out: &mut Vec<Case
         let sl = boundary_len(rng, false);
         sd("script", None, if sl == 0 { "-".into() } else { hex(&rbytes(rng, sl)) }, vec![], sl != 0, out);
         for ty in HASH_TYPES { if k < 2 || rng.gen_range(0..4) == 0 { let len = if ty == "ScriptHash" { 20 } else { 32 }; sd(&format!("hash:{}", ty), None, hex(&rbytes(rng, len)), vec![], true, out); } }
+    }
+    // LockTime values reachable through the derived Deserialize (which does not look at the threshold)
+    for (variant, n) in [("Blocks", 0u64), ("Blocks", 499_999_999), ("Blocks", 500_000_000), ("Blocks", 4294967295), ("Blocks", 4294967296), ("Seconds", 0), ("Seconds", 499_999_999),
+                         ("Seconds", 500_000_000), ("Seconds", 4294967295), ("Height", 5)] {
+        out.push(Case { text: format!("C20 lj {} {}", variant, n), tags: vec!["serde:locktime-json".into()], nontrivial: n != 0 });
     }
     // types whose serde form is their Display string
     for s in ["SIGHASH_ALL", "SIGHASH_NONE|SIGHASH_ANYONECANPAY", "SIGHASH_DEFAULT", "SIGHASH_RESERVED", "0xff", "0x4"] { sd("str", None, shex(s), vec!["serde:string-form".into()], true, out); }
